@@ -305,7 +305,7 @@ func checkC05(r *Run) {
 		rec(f, 0)
 	}
 	// dedicated: repeated Contact / PAI / From headers with 1-3 values each
-	cvals := []string{"<sip:a@b>", "sip:c@d;expires=5", "\"x,y\" <sip:e@f>;q=0.1", "Bob <sip:g@h>;tag=t", "Alice \"Al\" <sip:i@j>;tag=9", "\"A\" \"B, C\" <sip:k@l>"}
+	cvals := []string{"<sip:a@b>", "sip:c@d;expires=5", "\"x,y\" <sip:e@f>;q=0.1", "Bob <sip:g@h>;tag=t", "Alice \"Al\" <sip:i@j>;tag=9", "\"A\" \"B, C\" <sip:k@l>", "*67 <sip:m@n>;tag=3", "*Bob* <tel:123>"}
 	var lists []string
 	for i := range cvals {
 		lists = append(lists, cvals[i])
